@@ -127,7 +127,7 @@ def transcript_oracles(prop, ops, outs, rp, res):
                 if name == "close":
                     ncl += 1
                     if (key, ncl) in refused:
-                        if out != "OSError":
+                        if out not in ("OSError", "noten"):
                             res.violations.append(dict(case=case, what=f"close() inside the running remote_exec of {key} gave {out} (expected OSError)"))
                         continue
                 if name == "recv":
@@ -209,26 +209,33 @@ class Program(netexec.RandomProgram):
 
 def op_level(ctx, res, prop, nprog, profile=None):
     execnet = ctx.execnet
-    rng = ctx.rng("oplevel")
-    lines = []
+
+    def worker(indices):
+        r = common.Result()
+        runs = []
+        for i in indices:
+            prng = common.rng_for(ctx.seed, f"{prop}:prog:{i}")
+            rp = Program(execnet, prng, nops=prng.choice([6, 12, 25, 40]), profile=profile or {})
+            ops, outs, dig = rp.run_random()
+            r.count(tuple(ops), nontrivial=len(ops) > 3)
+            for op in ops:
+                r.stat("op_" + op.split()[0])
+            if rp.error:
+                r.violations.append(dict(case={"ops": " ; ".join(ops)}, what="real gateway pair failed under the op program: " + rp.error))
+                continue
+            transcript_oracles(prop, ops, outs, rp, r)
+            runs.append((i, ops, outs, dig))
+            if i < 3:
+                r.sample({"ops": " ; ".join(ops)[:300], "outs": " ; ".join(outs)[:300]})
+        return r, runs
+
     runs = []
-    for i in range(nprog):
-        prng = common.rng_for(ctx.seed, f"{prop}:prog:{i}")
-        rp = Program(execnet, prng, nops=prng.choice([6, 12, 25, 40]), profile=profile or {})
-        ops, outs, dig = rp.run_random()
-        res.count(tuple(ops), nontrivial=len(ops) > 3)
-        for op in ops:
-            res.stat("op_" + op.split()[0])
-        if rp.error:
-            res.violations.append(dict(case={"ops": " ; ".join(ops)}, what="real gateway pair failed under the op program: " + rp.error))
-            continue
-        transcript_oracles(prop, ops, outs, rp, res)
-        lines.append("net.run " + " ; ".join(ops))
-        runs.append((ops, outs, dig))
-        if i < 3:
-            res.sample({"ops": " ; ".join(ops)[:300], "outs": " ; ".join(outs)[:300]})
-    model = ctx.driver.ask(lines)
-    for (ops, outs, dig), m in zip(runs, model):
+    for part, rr in common.fork_map(nprog, worker):
+        common.merge_results(res, part)
+        runs += rr
+    runs.sort(key=lambda t: t[0])
+    model = ctx.driver.ask(["net.run " + " ; ".join(ops) for _i, ops, _o, _d in runs])
+    for (_i, ops, outs, dig), m in zip(runs, model):
         impl = " ; ".join(outs) + " | " + (dig or "?")
         if impl != m:
             mo = m.split(" | ")[0].split(" ; ")
@@ -887,10 +894,16 @@ def scenario_cut(ctx, res, rng, idx):
 
 
 def run_scenarios(ctx, res, fn, n, tag, **kw):
-    for i in range(n):
-        rng = common.rng_for(ctx.seed, f"{tag}:{i}")
-        fn(ctx, res, rng, i, **kw)
-        res.stat("scenario_" + tag)
+    def worker(indices):
+        r = common.Result()
+        for i in indices:
+            rng = common.rng_for(ctx.seed, f"{tag}:{i}")
+            fn(ctx, r, rng, i, **kw)
+            r.stat("scenario_" + tag)
+        return r
+
+    for part in common.fork_map(n, worker):
+        common.merge_results(res, part)
 
 
 # ---------------------------------------------------------------------------------------------
